@@ -22,7 +22,7 @@ OUTSIDE = ["all points simultaneously symbolic (measured out of reach, DESIGN §
            "the exhaustive-lattice reading of the property (enumeration is not this technique)", "rounding"]
 BOUNDS = {"quick": "k in 1..4; ~50 seeded base configurations per k and solver: k-1 lattice points + one point on a lattice line (t in [-3,3]); + scaling sweeps of one axis (s in [1e-6,1e6])",
           "thorough": "~600 base configurations per k and solver"}
-WALL_BUDGET = {"quick": 300, "thorough": 900}
+WALL_BUDGET = {"quick": 300, "thorough": 600}
 LAT = list(itertools.product([-1.0, 0.0, 1.0], repeat=3))
 DIRS = [d for d in LAT if any(d)]
 
